@@ -179,7 +179,7 @@ pub fn drive(args: &[String]) {
                 let fb = match mode { 0 => 0u64, 1 => u64::MAX, _ => rng.next() };
                 let record = i <= k + 2 || (i + 3 >= 4 * k && i <= 4 * k + 3) || i % 997 == 0 || i + 1 == n || n <= 200;
                 steps.push(json!({"obj": "a", "op": {"name":"add","script": words, "fallback": fb, "skip": !record}}));
-                if rng.below(4000) == 0 {
+                if rng.below(if n <= 400 { 60 } else { 4000 }) == 0 {
                     steps.push(json!({"obj": "a", "op": {"name":"clear"}}));
                 }
             }
